@@ -263,6 +263,16 @@ def _link(F, r, fn, site, forced, kind_out, key, what, c, opaque):
         r.inst(key, fn.where(sb) if sb is not None and site[0] == fn.name else fn.where(), True,
                "no outcome after %s (the path ends in a panic or loop)" % what, nontrivial=False)
         return
+    # the remaining paths are still visited: a call that sits in a loop is reached again after it returned the negative value
+    # (`ok = ok && visit(p)` stops visiting once one path failed: the files after it get no verdict and no log)
+    if sb is not None and site[0] == fn.name and what == "a negative result" and not bad:
+        in_loop = any(sb in body for h, body in cfg.natural_loops(fn).items())
+        if in_loop:
+            again = (fn.name, sb) in sim.visited_fired
+            r.inst(key + ":every-path-visited", fn.where(sb), again,
+                   "after a failing path the loop still visits the next one" if again else
+                   "once one path has failed the call is skipped for all later paths (short circuit on the accumulated verdict): "
+                   "they are never visited - no log, no verdict for them")
     r.inst(key, fn.where(sb) if sb is not None and site[0] == fn.name else fn.where(), not bad,
            "%s forces the caller's verdict on every path" % what if not bad else
            "verdict dropped: after %s from %s, %s %s" % (what, c.split("::")[-1], fn.name, sorted(set(bad))[0]),
